@@ -195,6 +195,42 @@ Definition selected_kont (body : list stmt) (bk : option kont) (hs : list (cond 
 Definition compile_handlers (hs : list (cond * list stmt)) : list (cond * list stmt * option kont) :=
   map (fun h => (fst h, snd h, @None kont)) (rev hs).
 
+(* The compiler's bookkeeping of loop-control statements inside interrupt blocks (syntax/compiler.py):
+   visit_Break / visit_Continue turn a `break` / `continue` that is in an interrupt block and outside any loop of
+   that block into `return BREAK` / `return CONTINUE` and record it in usedBreak / usedContinue;
+   visit_TryInterrupt resets both flags when it starts (and does not restore them when it ends: a nested
+   statement wipes what the enclosing one had recorded so far) and, after the call of runTryInterrupt, emits
+   `if result is BREAK: break` only if usedBreak is set and `if result is CONTINUE: continue` only if
+   usedContinue is set (the `return` check is emitted unconditionally).  [fl_stmt s inloop st] is the flag state
+   (usedBreak, usedContinue) after visiting s inside an interrupt block. *)
+Fixpoint fl_stmt (s : stmt) (inloop : bool) (st : bool * bool) : bool * bool :=
+  match s with
+  | SBreak => if inloop then st else (true, snd st)
+  | SContinue => if inloop then st else (fst st, true)
+  | SWhile _ body => fold_left (fun a x => fl_stmt x true a) body st
+  | SIf _ a b => fold_left (fun a x => fl_stmt x inloop a) b (fold_left (fun a x => fl_stmt x inloop a) a st)
+  | STry body hs =>
+      fold_left (fun a h => fold_left (fun a x => fl_stmt x false a) (snd h) a) hs
+                (fold_left (fun a x => fl_stmt x false a) body (false, false))
+  | _ => st
+  end.
+(* the checks emitted after the statement `try: body interrupt when ...: hs` *)
+Definition try_flags (body : list stmt) (hs : list (cond * list stmt)) : bool * bool :=
+  fl_stmt (STry body hs) false (false, false).
+(* a BREAK / CONTINUE conclusion whose check was not emitted is not acted upon: control falls through to the
+   statement after the try-interrupt, exactly as for `abort`.  [rw_stmt] makes that explicit on the blocks
+   (only loop-control statements of the block itself: not inside its loops or nested statements). *)
+Fixpoint rw_stmt (ub uc : bool) (s : stmt) : stmt :=
+  match s with
+  | SBreak => if ub then SBreak else SAbort
+  | SContinue => if uc then SContinue else SAbort
+  | SIf c a b => SIf c (map (rw_stmt ub uc) a) (map (rw_stmt ub uc) b)
+  | x => x
+  end.
+Definition compile_try (body : list stmt) (hs : list (cond * list stmt)) : list stmt * list (cond * list stmt) :=
+  let '(ub, uc) := try_flags body hs in
+  (map (rw_stmt ub uc) body, map (fun h => (fst h, map (rw_stmt ub uc) (snd h))) hs).
+
 Definition wait_forever : list stmt := [SWhile (CConst true) [SYieldRaw]].
 
 (* MonitorRequirement.lastValue: TRUE before the first update, then the verdict after the last update *)
@@ -246,7 +282,7 @@ Fixpoint step_subs (subs : list sstate) : (list sstate * option sres) * list eve
       match res with
       | SCont s' => let '(l, bad, e2) := step_subs r in (s' :: l, bad, e1 ++ e2)
       | SStopped => let '(l, bad, e2) := step_subs r in (l, bad, e1 ++ e2)
-      | other => ([], Some other, e1)
+      | other => (r, Some other, e1)      (* the sub-scenarios not yet stepped are still running *)
       end
   end.
 
@@ -389,7 +425,8 @@ Definition run_body (m : mode) (ib : bool) (o : owner) (subs : list sstate) (k :
           rec m ib o subs (FTry true o [SDoScenRaw ss'] None [(c, [SStopSubs; SAbort], None)] :: FSeq [SCheck] :: kk)
       (* the handler of do-scenario-for/until stops the running sub-scenarios: their requirements are checked *)
       | SStopSubs => if stops_ok P subs then rec m ib o [] kk else (OReject, [], subs)
-      | STry body hs => rec m ib o subs (FTry true o body None (compile_handlers hs) :: kk)
+      | STry body hs =>
+          rec m ib o subs (FTry true o (fst (compile_try body hs)) None (compile_handlers (snd (compile_try body hs))) :: kk)
       | SDoRaw b =>
           match m with
           | MScen _ => (OError, [], subs)
@@ -442,8 +479,9 @@ Fixpoint update_reqs (sid : nat) (rs : list (nat * LTL.trace)) : (list (nat * LT
   end.
 
 (* step 1e: DynamicScenario._stop of a scenario in state st *)
-Definition stopped (st : sstate) (e : list event) : sres * list event :=
-  if stop_ok P st then (SStopped, e) else (SBad OReject, e).
+Definition stopped_with (r : sres) (st : sstate) (e : list event) : sres * list event :=
+  if stop_ok P st then (r, e) else (SBad OReject, e).
+Definition stopped := stopped_with SStopped.
 
 (* the part of DynamicScenario._step after the compose block: finished compose block? termination
    conditions?  (a scenario with guards but no compose block gets a generated no-op compose block) *)
@@ -481,7 +519,7 @@ Definition scen_body (st : sstate) : sres * list event :=
             let '(out, e, subs') := rec (MScen sid) false (OScen sid) subs kc in
             match out with
             | OYield YEndScenario k' => stopped (SState sid el (Some k') mons reqs' subs') (er ++ e)
-            | OYield YEndSim _ => (SEndSim, er ++ e)
+            | OYield YEndSim k' => stopped_with SEndSim (SState sid el (Some k') mons reqs' subs') (er ++ e)
             | OYield _ k' => scen_fin sc sid el mons reqs' (Some k') subs' (er ++ e)
             | ODone => scen_fin sc sid el mons reqs' None subs' (er ++ e)
             | OBlock _ => (SBad OError, er ++ e)
